@@ -112,6 +112,8 @@ def run(ctx):
     keep = []
     for o in ctx.obs[start:]:
         if o.rule == "C14.table.seq-count":
+            if o.key.endswith("::length-and-modes-byte") or o.key == "reader::empty-input-refused-first":
+                continue        # reader-only clauses (encodings this compressor never writes): C01 / C14
             o.rule = "C16.table.seq-count"
             keep.append(o)
     ctx.obs[start:] = keep
@@ -179,6 +181,57 @@ def run(ctx):
                   "compress_block::sequence-translation", cb["file"], "reported sequences are translated field by field (offset + 3: no repeat codes)",
                   observed=f)
     ctx.guard(RA, "api", api)
+
+    RO = "C16.order.matcher-protocol"
+
+    def protocol():
+        """Per frame the matcher is reset (with the configured level) before anything else is asked of it: the trait
+        documents that window_size() may change in reset(), and the header must declare the window the sequences
+        of *this* frame were produced for."""
+        from .. import mir as M
+        MT = "ruzstd::encoding::Matcher::"
+        body = ctx.mir(FC + "::compress")
+        memo = {}
+
+        def uses_matcher(path, depth=3):
+            """does this local function (transitively) call a Matcher method other than reset?"""
+            if path in memo:
+                return memo[path]
+            memo[path] = False
+            j = crate.mir.get(path)
+            if j is None or depth == 0:
+                return False
+            r = False
+            for bi, t, tgt in M.Body(j).calls():
+                c = H.strip_generics(tgt or "")
+                if c.startswith(MT) or uses_matcher(c, depth - 1):
+                    r = True
+                    break
+            memo[path] = r
+            return r
+        resets, others = [], []
+        for bi, t, tgt in body.calls():
+            c = H.strip_generics(tgt or "")
+            if c == MT + "reset":
+                resets.append(bi)
+            elif c.startswith(MT):
+                others.append((bi, c))
+            elif c in crate.mir and c != FC + "::compress" and uses_matcher(c):
+                others.append((bi, c))
+        ctx.check(len(resets) == 1, RO, "compress::resets-once", body.file, "compress() resets the matcher exactly once per frame", observed=len(resets))
+        if len(resets) != 1:
+            return
+        bad = [(H.short(c), body.line_of(bi) if hasattr(body, "line_of") else bi) for bi, c in others if not body.dominates(resets[0], bi) or bi == resets[0]]
+        ctx.check(not bad and len(others) >= 3, RO, "compress::reset-before-any-other-matcher-call", body.file,
+                  "Matcher::reset must come before every other use of the matcher in the frame (window_size() read for the "
+                  "header, spaces, matching) — directly or through helpers", observed=bad or [H.short(c) for _, c in others])
+        hb = ctx.hir(FC + "::compress")
+        rs = [x for x in hq.find(hb["body"], lambda x: x.get("k") == "MethodCall" and x["name"] == "reset" and
+                                 (x.get("callee") or "").endswith("encoding::Matcher::reset"))]
+        v = hq.Canon(hb)(rs[0]["args"][0]) if len(rs) == 1 else None
+        ctx.check(v == "self.compression_level", RO, "compress::reset-with-configured-level", hb["file"],
+                  "the matcher is reset with the compressor's current level", observed=v)
+    ctx.guard(RO, "protocol", protocol)
 
     RP = "C16.inventory.panics"
     if not os.path.exists(TABLE):
